@@ -476,11 +476,14 @@ def ref_assemble(ap: AbsProg):
                 labels[it[3]] = a
             a += 4 * sz
     out = []
+    pseudo = set()          # positions in [out] that come from a pseudo-instruction (their exact shape is not mandated)
     a = 0
     for it, sz in zip(ap.items, sizes):
         if it[0] == "label":
             continue
         mn, o = it[1], it[2]
+        if mn in ("nop", "mv", "li", "la") or "var" in o:
+            pseudo.update(range(len(out), len(out) + sz))
         if mn == "nop":
             out.append([MN["addi"], 0, 0, 0])
         elif mn == "mv":
@@ -524,4 +527,6 @@ def ref_assemble(ap: AbsProg):
                 imm = (labels[o["label"]] + o.get("offset", 0) - a) if "label" in o else o["imm"] - a
                 out.append([n, o["rd"], sext(imm, 21), imm + a])
         a += 4 * sz
+    labels = dict(labels)
+    labels["__pseudo_positions__"] = pseudo
     return out, labels
